@@ -81,6 +81,7 @@ Clauses ==
    C08_OneOutcome |-> C08_OneOutcome(pre, ev, st, gh),
    C08_RespondGuards |-> C08_RespondGuards(pre, ev),
    C08_OneShot |-> C08_OneShot(pre, ev, st),
+   C08_CallFresh |-> C08_CallFresh(pre, ev, st),
    C08_Schedule |-> C08_Schedule(pre, ev, st, gpre),
    C08_Authority |-> C08_Authority(pre, ev),
    C08_Callback |-> C08_Callback(pre, ev, st, gh),
